@@ -15,7 +15,8 @@ def canon(s):
 
 def rust_ty(f):
     base = {"u8": "u8", "str": "String", "bytes": "Vec<u8>", "cu": "u8", "bstr": "&'a str", "bslice": "&'a minicbor::bytes::ByteSlice",
-            "bu8": "&'a [u8]", "cowb": "std::borrow::Cow<'a, str>", "cown": "std::borrow::Cow<'a, str>"}.get(f["ty"]) or NESTED[f["ty"]]
+            "bu8": "&'a [u8]", "cowb": "std::borrow::Cow<'a, str>", "cown": "std::borrow::Cow<'a, str>",
+            "cowbu8": "std::borrow::Cow<'a, [u8]>"}.get(f["ty"]) or NESTED[f["ty"]]
     if f.get("skip"):
         return "u8"
     if f["opt"] and f["ty"] != "cu":
@@ -40,7 +41,7 @@ def generic_params(fields):
     return out
 
 
-BORROW_TYS = ("bstr", "bslice", "bu8", "cowb", "cown")
+BORROW_TYS = ("bstr", "bslice", "bu8", "cowb", "cown", "cowbu8")
 
 
 def borrows(fields):
@@ -54,17 +55,26 @@ def field_attr(f, rng):
     letter = rng.choice(["n", "b"]) if f["ty"] in ("u8", "str", "cu") else "n"
     if f["ty"] in ("bstr", "bslice"):
         letter = rng.choice(["n", "b"])          # these borrow implicitly, whatever the spelling
-    if f["ty"] in ("bu8", "cowb"):
+    if f["ty"] in ("bu8", "cowb", "cowbu8"):
         letter = "b"
     extra = []
     if f["tag"] >= 0:
         extra.append(f"tag({f['tag']})")
-    if f["ty"] in ("bytes", "bu8"):
-        extra.append('with = "minicbor::bytes"')
+    # a codec can be named as a module (`with`) or function by function: the spelling must not influence the bytes
+    if f["ty"] in ("bytes", "bu8", "cowbu8"):
+        if rng.random() < 0.5:
+            extra.append('with = "minicbor::bytes"')
+        else:
+            extra += ['encode_with = "minicbor::bytes::encode"', 'decode_with = "minicbor::bytes::decode"', 'cbor_len = "minicbor::bytes::cbor_len"']
     if f["ty"] == "cu":
-        extra.append('with = "crate::cu"')
-        if f["opt"]:
-            extra.append("has_nil")
+        if rng.random() < 0.5:
+            extra.append('with = "crate::cu"')
+            if f["opt"]:
+                extra.append("has_nil")
+        else:
+            extra += ['encode_with = "crate::cu::encode"', 'decode_with = "crate::cu::decode"', 'cbor_len = "crate::cu::cbor_len"']
+            if f["opt"]:
+                extra += ['nil = "crate::cu::nil"', 'is_nil = "crate::cu::is_nil"']
     if extra or rng.random() < 0.3:
         return "#[cbor(" + ", ".join([f"{letter}({idx})"] + extra) + ")]"
     return f"#[{letter}({idx})]"
@@ -77,7 +87,8 @@ def from_expr(f, src):
     ty = f["ty"]
     inner = {"u8": f"fv_u8(&{src})", "cu": f"fv_u8(&{src})", "str": f"fv_str(&{src})", "bytes": f"fv_bytes(&{src})",
              "bstr": f"leak_str(fv_str(&{src}))", "bslice": f"leak_bytes(fv_bytes(&{src})).into()", "bu8": f"leak_bytes(fv_bytes(&{src}))",
-             "cowb": f"std::borrow::Cow::Owned(fv_str(&{src}))", "cown": f"std::borrow::Cow::Owned(fv_str(&{src}))"}.get(ty) \
+             "cowb": f"std::borrow::Cow::Owned(fv_str(&{src}))", "cown": f"std::borrow::Cow::Owned(fv_str(&{src}))",
+             "cowbu8": f"std::borrow::Cow::Owned(fv_bytes(&{src}))"}.get(ty) \
         or f"<{NESTED.get(ty, 'u8')} as Dv>::from_json(&{src}[\"sub\"])"
     if f["opt"] and ty != "cu":
         e = f"if {src}[\"some\"] == true {{ Some({inner}) }} else {{ None }}"
@@ -94,7 +105,7 @@ def to_expr(f, val):
     def one(v):
         return {"u8": f"j_u8(*{v})", "cu": f"j_u8(*{v})", "str": f"j_bytes({v}.as_bytes())", "bytes": f"j_bytes({v})",
                 "bstr": f"j_borrowed({v}.as_bytes())", "bslice": f"j_borrowed(&{v}[..])", "bu8": f"j_borrowed({v})",
-                "cowb": f"j_cow({v}, true)", "cown": f"j_cow({v}, false)"}.get(ty) or f"j_sub({v}.to_json())"
+                "cowb": f"j_cow({v}, true)", "cown": f"j_cow({v}, false)", "cowbu8": f"j_cowb({v})"}.get(ty) or f"j_sub({v}.to_json())"
     if f["opt"] and ty != "cu":
         scrut = f"&**{val}" if f.get("osp") == "boxed" else val
         return f"match {scrut} {{ Some(x) => {one('x')}, None => j_none() }}"
